@@ -357,7 +357,7 @@ theorem regexProvide_ne_err (cfg : RegexCfg) (buf : Buf) (o c : Nat) (ex : List 
     · split at h
       · cases h
       · split at h
-        · cases h
+        · split at h <;> cases h
         · split at h
           · cases h
           · cases h
@@ -601,7 +601,9 @@ theorem regexProvide_no_duplicate (cfg : RegexCfg) (buf : Buf) (o : Nat) (existi
       · cases h; simp
       · rename_i k hk
         split at h
-        · cases h
+        · split at h
+          · cases h; simp
+          · cases h
         · split at h
           · cases h; simp
           · rename_i hw
